@@ -89,6 +89,8 @@ FIXED_PINNED = {
     "corpus/openapi-enum-array-member": "182b25c",
     "corpus/openapi-empty-enum": "fd9167a", "corpus/openapi-empty-oneof": "fd9167a",
     "corpus-config/union-empty": "146d1ec",
+    "corpus/cue-ref-to-hidden-field": "0643960", "corpus/cue-ref-to-hidden-definition": "0643960",
+    "corpus/cue-ref-to-comprehension-variable": "0643960",
 }
 
 
